@@ -651,14 +651,23 @@ def try_to_hashable(
         return UnhashableError
 
 
+def _sort_key(x: Any) -> Any:
+    """Stand-in for `x` when sorting: `<` on sets is the subset relation, which is only a partial order."""
+    if isinstance(x, set | frozenset):
+        return (type(x).__qualname__, tuple(_sort_key(e) for e in _sorted(x)))
+    if isinstance(x, tuple):
+        return tuple(_sort_key(e) for e in x)
+    return x
+
+
 def _sorted(items: Iterable, key: Callable[[Any], Any] = lambda x: x) -> list:
     """Sort items, also if they are not mutually comparable (e.g., `int` and `str`)."""
     items = list(items)
     try:
-        return sorted(items, key=key)
+        return sorted(items, key=lambda x: _sort_key(key(x)))
     except TypeError:
         # Fall back to a canonical order that does not depend on the iteration order
-        return sorted(items, key=lambda x: (type(key(x)).__qualname__, repr(key(x))))
+        return sorted(items, key=lambda x: (type(key(x)).__qualname__, repr(_sort_key(key(x)))))
 
 
 def _hashable_iterable(
